@@ -41,8 +41,10 @@ size_t splinetable<Alloc>::estimateMemory(const std::string& filePath,
 		throw std::runtime_error("Unable to open "+filePath);
 	
 	{
-		int hdus, type;
-		fits_get_num_hdus(fits, &hdus, &error);
+		//(the number of HDUs is not needed, and asking for it makes cfitsio
+		//scan the whole file, during which it takes a failing read for the
+		//end of the file)
+		int type;
 		fits_movabs_hdu(fits, 1, &type, &error);
 		if (error != 0)
 			throw std::runtime_error("Failed to move to HDU 1 in "+filePath);
@@ -210,8 +212,10 @@ bool splinetable<Alloc>::read_fits_core_impl(fitsfile* fits, const std::string& 
 	
 	//Set the HDU and check its type
 	{
-		int hdus, type;
-		fits_get_num_hdus(fits, &hdus, &error);
+		//(the number of HDUs is not needed, and asking for it makes cfitsio
+		//scan the whole file, during which it takes a failing read for the
+		//end of the file)
+		int type;
 		fits_movabs_hdu(fits, 1, &type, &error);
 		if (error != 0)
 			throw std::runtime_error("Unable to move to first HDU: Error "+std::to_string(error));
@@ -249,6 +253,10 @@ bool splinetable<Alloc>::read_fits_core_impl(fitsfile* fits, const std::string& 
 			for (int j = 1 ; j-1 < nkeys; j++) {
 				error = 0;
 				fits_read_keyn(fits, j, key, value, NULL, &error);
+				//a card which cannot be parsed is skipped, but a header which
+				//cannot be read must not pass for one with fewer keywords
+				if (error == READ_ERROR || error == END_OF_FILE || error == SEEK_ERROR)
+					throw std::runtime_error("Error reading header of "+filePath+": Error "+std::to_string(error));
 				if (error != 0)
 					continue;
 				if (reservedFitsKeyword(key))
@@ -262,6 +270,10 @@ bool splinetable<Alloc>::read_fits_core_impl(fitsfile* fits, const std::string& 
 			for (unsigned i = 0, j = 1 ; (i < naux) && (j-1 < unsigned(nkeys)); j++) {
 				error = 0;
 				fits_read_keyn(fits, j, key, value, NULL, &error);
+				//a card which cannot be parsed is skipped, but a header which
+				//cannot be read must not pass for one with fewer keywords
+				if (error == READ_ERROR || error == END_OF_FILE || error == SEEK_ERROR)
+					throw std::runtime_error("Error reading header of "+filePath+": Error "+std::to_string(error));
 				if (error != 0)
 					continue;
 				if (reservedFitsKeyword(key))
@@ -457,6 +469,34 @@ bool splinetable<Alloc>::read_fits_core_impl(fitsfile* fits, const std::string& 
 		int ext_error = 0;
 		int ext_dim = 0;
 		fits_movnam_hdu(fits, IMAGE_HDU, const_cast<char*>("EXTENTS"), 0, &ext_error);
+		//only the absence of the extension means that there are no extents;
+		//failing to read the file does not
+		if (ext_error != 0 && ext_error != BAD_HDU_NUM)
+			throw std::runtime_error("Error looking for extents in "+filePath+": Error "+std::to_string(ext_error));
+		if (ext_error == BAD_HDU_NUM) {
+			//cfitsio reports a failed read while it scans the extensions
+			//in the same way as the end of the file. Make sure that the
+			//last extension it found really is the end of the file.
+			int n_hdus = 0, hdu_type, status = 0;
+			LONGLONG headstart = 0, datastart = 0, dataend = 0;
+			//(a second look must come to the same conclusion: cfitsio may
+			//have located the extension but failed to read its header)
+			int again = 0;
+			fits_movnam_hdu(fits, IMAGE_HDU, const_cast<char*>("EXTENTS"), 0, &again);
+			if (again != BAD_HDU_NUM)
+				status = again ? again : READ_ERROR;
+			fits_get_num_hdus(fits, &n_hdus, &status);
+			fits_movabs_hdu(fits, n_hdus, &hdu_type, &status);
+			fits_get_hduaddrll(fits, &headstart, &datastart, &dataend, &status);
+			LONGLONG actualSize = fileSize;
+			if (!fileSize) {
+				std::ifstream file(filePath.c_str(), std::ios::binary|std::ios::ate);
+				actualSize = file ? (LONGLONG)file.tellg() : -1;
+			}
+			//(anything shorter than one FITS record cannot be an extension)
+			if (status != 0 || actualSize < 0 || actualSize-dataend >= 2880)
+				throw std::runtime_error("Error looking for extents in "+filePath+": could not read all extensions");
+		}
 		fits_get_img_dim(fits, &ext_dim, &ext_error);
 		fits_get_img_size(fits, 1, &n_extents, &ext_error);
 		if (ext_dim != 1 || n_extents != 2*ndim)
